@@ -37,7 +37,7 @@ class Dt1Table:
         return M
 
 
-def run_dt1(rep, tier, invariants=("ColfilterOK", "Colfilter0OK", "ColdfiltOK", "ColdScalarOK", "ColifiltOK"), label="MC_DTCWT1", **over):
+def run_dt1(rep, tier, invariants=("ColfilterOK", "Colfilter0OK", "ColdfiltOK", "ColdScalarOK", "ColifiltOK", "IfiltScalarOK"), label="MC_DTCWT1", **over):
     c = dict(RSet=models.rng(2, 40 if tier == "quick" else 96), L1Set={3, 5, 7, 9, 13, 19},
              QSet={4, 6, 10, 14, 16, 18} if tier == "quick" else {4, 6, 10, 14, 16, 18, 32},
              Shard=0, NShards=1, Emit=True, PRMaxR=24 if tier == "quick" else 48)
